@@ -177,6 +177,10 @@ class Tracer:
             elemv = it[1]
         elif it[0] == 'seqf':
             elemv = it[1]
+        elif it[0] == 'text' and any(p_[0] == 'xform' for p_ in it[1]):
+            # pieces of a text that went through a library call (split,
+            # textwrap.wrap, ...): each piece is a part of that text
+            elemv = it
         else:
             self.err(st.iter, 'loop over something that is not the '
                      'expression list or a list derived from it')
@@ -385,7 +389,11 @@ class Tracer:
                 args.extend(v[1][1])
             else:
                 args.append(v)
-        if e.keywords:
+        if e.keywords and isinstance(e.func, ast.Attribute) and isinstance(
+                e.func.value, ast.Name) and e.func.value.id in (
+                    'textwrap', 're', 'os', 'logging'):
+            pass  # options of a library call: irrelevant for the trace
+        elif e.keywords:
             # keyword arguments only for the width of the plain emitter
             f0 = self.expr(e.func, env, depth) if isinstance(
                 e.func, ast.Name) else None
